@@ -58,7 +58,7 @@ func sparseOf(g *oracle.G) *graph.SparseGraph {
 }
 
 // reps returns the graph in every representation the library offers, by name.
-func reps(g *oracle.G) map[string]graph.Graph {
+func buildAllReps(g *oracle.G) map[string]graph.Graph {
 	idn := make([]int, g.N)
 	for i := range idn {
 		idn[i] = i
@@ -106,6 +106,22 @@ func reps(g *oracle.G) map[string]graph.Graph {
 	sparseEdited.RemoveVertex(mid)
 	denseEdited := denseOf(withExtra)
 	denseEdited.RemoveVertex(mid)
+	// graphs that were copied and then grown: g without its last vertex, Copy(), AddVertex(neighbours of the last vertex)
+	var sparseCopiedGrown, denseCopiedGrown graph.Graph
+	if g.N >= 1 {
+		less := g.Copy()
+		last := g.N - 1
+		nb := g.Nbrs(last)
+		less.RemoveVertex(last)
+		sc := sparseOf(less).Copy()
+		sc.AddVertex(append([]int{}, nb...))
+		sparseCopiedGrown = sc
+		dc := denseOf(less).Copy()
+		dc.AddVertex(append([]int{}, nb...))
+		denseCopiedGrown = dc
+	} else {
+		sparseCopiedGrown, denseCopiedGrown = sparseOf(g), denseOf(g)
+	}
 	// a small view of a much larger host: every vertex of g gets 9 private pendant vertices plus 8n+8 common
 	// neighbours, original vertex i sits at host label 3i+1 so that host neighbour lists interleave members and
 	// non-members of the view
@@ -129,21 +145,47 @@ func reps(g *oracle.G) map[string]graph.Graph {
 		}
 	}
 	return map[string]graph.Graph{
-		"sparse-edited":    sparseEdited,
-		"dense-edited":     denseEdited,
-		"induced-bighost":  graph.InducedSubgraph(sparseOf(host), view),
-		"induced-reversed": graph.InducedSubgraph(sparseOf(g.Induced(invPerm(rev))), rev),
-		"induced-nested":   graph.InducedSubgraph(graph.InducedSubgraph(denseOf(g.Induced(invPerm(comp))), v1), v2),
-		"dense-bytes":      nonUnit,
-		"dense":            denseOf(g),
-		"sparse":           sparseOf(g),
-		"cocomp":           graph.Complement(graph.Complement(denseOf(g))),
-		"comp-dense":       graph.Complement(denseOf(g.Complement())),
-		"induced":          graph.InducedSubgraph(sparseOf(g), idn),
+		"sparse-copied-grown": sparseCopiedGrown,
+		"dense-copied-grown":  denseCopiedGrown,
+		"sparse-edited":       sparseEdited,
+		"dense-edited":        denseEdited,
+		"induced-bighost":     graph.InducedSubgraph(sparseOf(host), view),
+		"induced-reversed":    graph.InducedSubgraph(sparseOf(g.Induced(invPerm(rev))), rev),
+		"induced-nested":      graph.InducedSubgraph(graph.InducedSubgraph(denseOf(g.Induced(invPerm(comp))), v1), v2),
+		"dense-bytes":         nonUnit,
+		"dense":               denseOf(g),
+		"sparse":              sparseOf(g),
+		"cocomp":              graph.Complement(graph.Complement(denseOf(g))),
+		"comp-dense":          graph.Complement(denseOf(g.Complement())),
+		"induced":             graph.InducedSubgraph(sparseOf(g), idn),
 	}
 }
 
-var repNames = []string{"dense", "sparse", "cocomp", "comp-dense", "induced", "dense-bytes", "induced-reversed", "induced-nested", "sparse-edited", "dense-edited", "induced-bighost"}
+// reps returns the graph in every representation the library offers, by name.
+func reps(g *oracle.G) map[string]graph.Graph { return buildAllReps(g) }
+
+// repOf builds one representation. The cheap ones are built directly; the others come from buildAllReps.
+func repOf(g *oracle.G, name string) graph.Graph {
+	switch name {
+	case "dense":
+		return denseOf(g)
+	case "sparse":
+		return sparseOf(g)
+	case "cocomp":
+		return graph.Complement(graph.Complement(denseOf(g)))
+	case "comp-dense":
+		return graph.Complement(denseOf(g.Complement()))
+	case "induced":
+		idn := make([]int, g.N)
+		for i := range idn {
+			idn[i] = i
+		}
+		return graph.InducedSubgraph(sparseOf(g), idn)
+	}
+	return buildAllReps(g)[name]
+}
+
+var repNames = []string{"dense", "sparse", "cocomp", "comp-dense", "induced", "dense-bytes", "induced-reversed", "induced-nested", "sparse-edited", "dense-edited", "induced-bighost", "sparse-copied-grown", "dense-copied-grown"}
 
 // wellFormed checks the observers of any graph.Graph against each other and returns the graph read through IsEdge.
 func wellFormed(what string, gr graph.Graph) (*oracle.G, error) {
